@@ -312,5 +312,57 @@ def strategy(tier):
     return cases()
 
 
+VALUE_POOL = [
+    *TT.WRONG_POOL,
+    TT.V("int", x=0), TT.V("int", x=1), TT.V("bool", x=False), TT.V("float", x=0.0), TT.V("str", x=""), TT.V("str", x="x"), TT.V("str", x="a"),
+    TT.V("bytes", x=""), TT.V("uuid", x=1), TT.V("date", x=1), TT.V("datetime", x=1), TT.V("time", x=1), TT.V("timedelta", x=1),
+    TT.V("path", x="a"), TT.V("enum", e="Size", m="S"), TT.V("callable", x="len"), TT.V("state", s="InnerSub", f={"v": TT.V("int", x=1)}),
+    TT.V("state", s="Node", f={"val": TT.V("int", x=1)}), TT.V("gbox", arg="int", val=TT.V("int", x=1), items=[]),
+    TT.V("gbox", arg=None, val=TT.V("int", x=1), items=[]), TT.V("tuple", items=[]), TT.V("tuple", items=[TT.V("int", x=1), TT.V("str", x="a")]),
+    TT.V("list", items=[TT.V("int", x=1), TT.V("int", x=2)]), TT.V("frozenset", items=[TT.V("str", x="x")]), TT.V("set", items=[]),
+    TT.V("dict", items=[[TT.V("str", x="x"), TT.V("int", x=1)]]), TT.V("dict", items=[[TT.V("int", x=1), TT.V("str", x="x")]]),
+    TT.V("mproxy", items=[[TT.V("str", x="ab"), TT.V("str", x="cd")]]), TT.V("range", n=2), TT.V("deque", items=[TT.V("str", x="q")]),
+]  # fmt: skip
+
+
+def matrix_terms(tier):
+    leaves = TT.leaf_terms(False, False)
+    uniq = []
+    for t in leaves:
+        if t not in uniq:
+            uniq.append(t)
+    yield from uniq
+    for t in uniq:
+        yield TT.T("seq", of=t)
+        yield TT.T("tuple_var", of=t)
+        yield TT.T("optional", of=t)
+        yield TT.T("alias", of=t)
+        yield TT.T("tuple_fixed", items=[t, TT.T("str")])
+        yield TT.T("alias_param", body=TT.T("seq", of=TT.T("var")), arg=t)
+        for k in TT.KEY_TERMS:
+            yield TT.T("map", k=k, v=t)
+    for h in TT.HASHABLE_LEAVES:
+        yield TT.T("set", of=h)
+        yield TT.T("frozenset", of=h)
+    if tier == "thorough":
+        for a in uniq:
+            for b in uniq:
+                if a != b:
+                    yield TT.T("union", alts=[a, b])
+
+
+def enumerate_cases(tier):
+    """the (term x value) matrix: every single-attribute class over the term pool against every pool value"""
+    for t in matrix_terms(tier):
+        cls = {"generic": False, "targ": None, "attrs": [{"name": "a0", "term": t, "default": None}]}
+        for v in VALUE_POOL:
+            if v["v"] == "missing":
+                continue
+            yield {"cls": cls, "args": {"a0": v}, "broken_depth": 1}
+
+
+EXHAUSTIVE_MEANS = "the (annotation term x value) matrix: every leaf term and every one-level wrapper of it (thorough: also every union of two leaves) against every value of a fixed pool of ~50 values"
+
+
 def budget(tier):
     return {"examples": 2500, "shards": 1} if tier == "quick" else {"examples": 25000, "shards": 16}
